@@ -511,8 +511,14 @@ impl Node {
 
     pub fn make_reference(&self) -> ExternalReference {
         let id0 = self.reference_counter.fetch_add(1, Ordering::SeqCst);
+        #[cfg(edp_rs_verif)]
+        edp_client::verif::sync_point("ref.word0", id0 as u64, 0);
         let id1 = self.reference_counter.fetch_add(1, Ordering::SeqCst);
+        #[cfg(edp_rs_verif)]
+        edp_client::verif::sync_point("ref.word1", id1 as u64, 0);
         let id2 = self.reference_counter.fetch_add(1, Ordering::SeqCst);
+        #[cfg(edp_rs_verif)]
+        edp_client::verif::sync_point("ref.word2", id2 as u64, 0);
         ExternalReference::new(
             self.name.clone(),
             self.creation.load(Ordering::SeqCst),
@@ -567,6 +573,24 @@ impl Node {
 
     pub fn name(&self) -> &Atom {
         &self.name
+    }
+
+    /// Verification hook: the counter references and unlink ids are drawn from.
+    #[cfg(edp_rs_verif)]
+    pub fn verif_reference_counter(&self) -> Arc<AtomicU32> {
+        self.reference_counter.clone()
+    }
+
+    /// Verification hook: the node's pid allocator.
+    #[cfg(edp_rs_verif)]
+    pub fn verif_pid_allocator(&self) -> Arc<PidAllocator> {
+        self.pid_allocator.clone()
+    }
+
+    /// Verification hook: number of remote calls still registered as outstanding.
+    #[cfg(edp_rs_verif)]
+    pub fn verif_pending_rpcs(&self) -> usize {
+        self.pending_rpcs.len()
     }
 
     pub fn creation(&self) -> u32 {
